@@ -14,6 +14,24 @@ CCP = NODES + "consume_common_prefix"
 KSW = NODES + "key_starts_with"
 
 
+def _symc(t):
+    """canonical form modulo the symmetry of == / != (terms and normalised relations alike)"""
+    if isinstance(t, (tuple, frozenset, list, set)):
+        items = [_symc(x) for x in t]
+        if isinstance(t, (frozenset, set)):
+            return frozenset(items)
+        if isinstance(t, list):
+            return items
+        if len(items) == 3 and items[0] in ("==", "!="):
+            a, b = sorted(items[1:], key=repr)
+            return (items[0], a, b)
+        if len(items) == 4 and items[0] == "cmp" and items[1] in ("==", "!="):
+            a, b = sorted(items[2:], key=repr)
+            return ("cmp", items[1], a, b)
+        return tuple(items)
+    return t
+
+
 @rule("HELP", ["C01", "C08", "C10", "C12", "C07"])
 def helpers(ctx, pid):
     """The path helpers have the semantics the path rules assume: key_starts_with is the prefix test,
@@ -34,7 +52,7 @@ def helpers(ctx, pid):
     want = {(frozenset({(">", ("len", b), ("len", a))}), C(False)), (frozenset({(">=", ("len", a), ("len", b))}), allc)}
     alt = {(frozenset(), ("cmp", "==", ("slice", a, None, ("len", b)), b))}
     c = "prefix-test:key_starts_with"
-    if rows == want or rows == alt:
+    if _symc(rows) == _symc(want) or _symc(rows) == _symc(alt):
         ctx.ok(c, f.loc(), "key_starts_with(full, partial): False if full is shorter, else element-wise equality over zip(full, partial)")
     else:
         ctx.unsure(c, f.loc(), "key_starts_with has a body the rule does not recognise as the prefix test: %s" % sorted((sorted(map(str, cs)), tstr(r)[:60]) for cs, r in rows)[:2])
@@ -56,7 +74,7 @@ def helpers(ctx, pid):
         ((("==", ("sub", pair, C(0)), ("sub", pair, C(1))),), ("call", "ext:min", (("len", l), ("len", r)), ())),
     }
     c = "first-mismatch:get_common_prefix_length"
-    if rets == want:
+    if _symc(rets) == _symc(want):
         ctx.ok(c, g.loc(), "index of the first differing position of zip(left, right), else min(len(left), len(right))")
     else:
         ctx.unsure(c, g.loc(), "get_common_prefix_length has a body the rule does not recognise: %s" % sorted((str(cs), tstr(rv)[:50]) for cs, rv in rets)[:3])
